@@ -73,6 +73,14 @@ func runC06(l *core.Ledger) {
 	// an abandoned send-waiting call must not block the node's sender for later one-way calls
 	l.With(map[string]string{"C05-M6": "C06-P5"}, func() { c05M6(l, r, eps) })
 	c06P6(l)
+	l.Rule("C06-P16", "at most once per targeted node presupposes that a configuration lists a node once (C14-G2 re-run)")
+	l.With(map[string]string{"C14-G2": "C06-P16"}, func() {
+		for _, c := range findCtors(l, r) {
+			c14Ctor(l, r, c)
+		}
+	})
+	l.Rule("C06-P17", "a send-waiting one-way call is confirmed by the write of its own message: one id source for every call on a node (C05-M1 re-run) - with a second counter the confirmation router of a unicast is replaced by a concurrent call with the same number, and the unicast never returns although its message was sent")
+	l.With(map[string]string{"C05-M1": "C06-P17"}, func() { c05M1(l, r, eps) })
 }
 
 func isDataMessage(ep *entryPoint) func(sx.Origin) bool {
